@@ -29,12 +29,32 @@ func vxOpts() []ParserOption {
 // vxSoup: arbitrary token sequences (optionally after a concrete prefix) into the
 // low-level parser: totality (C01), structured errors (C13).
 func vxSoup(prefix string, tab *VxTable, maxK int) {
-	toks := append([]token.Token{}, VxFixed(prefix)...)
+	vxSoupToks(append([]token.Token{}, VxFixed(prefix)...), tab, maxK)
+}
+
+func vxSoupToks(toks []token.Token, tab *VxTable, maxK int) {
+	vxSoupRun(toks, tab, maxK, vxOpts)
+}
+
+// dialect only (the truncation corpus is explored without strict mode)
+func vxDialectOpts() []ParserOption {
+	switch vx.Choice(4) {
+	case 1:
+		return []ParserOption{WithDialect("mysql")}
+	case 2:
+		return []ParserOption{WithDialect("postgresql")}
+	case 3:
+		return []ParserOption{WithDialect("sqlserver")}
+	}
+	return nil
+}
+
+func vxSoupRun(toks []token.Token, tab *VxTable, maxK int, mkOpts func() []ParserOption) {
 	toks = append(toks, tab.Toks(maxK)...)
 	if vx.Bool() {
 		toks = append(toks, VxEOF)
 	}
-	p := NewParser(vxOpts()...)
+	p := NewParser(mkOpts()...)
 	VxNoteToks(toks)
 	tree, err := p.Parse(toks)
 	vx.Notef("accepted=%v", err == nil)
@@ -101,3 +121,63 @@ func VxSoup_Select3() { vxSoup("SELECT", VxHostileTable, 3) }
 func VxSoup_Select4() { vxSoup("SELECT", VxHostileTable, 4) }
 func VxSoup_From3()   { vxSoup("SELECT a FROM", VxHostileTable, 3) }
 func VxSoup_From4()   { vxSoup("SELECT a FROM", VxHostileTable, 4) }
+
+// ---- truncations: every prefix of a corpus of construct-rich statements, continued by <= maxK
+// symbolic tokens (the classic place for "loop until ')'" productions to miss the end of input)
+
+var vxCutCorpus = []string{
+	"SELECT a FROM t WHERE MATCH ( a , b ) AGAINST ( 'x' IN BOOLEAN MODE )",
+	"SELECT CASE a WHEN 1 THEN 'x' ELSE 'y' END , CAST ( a AS DECIMAL ( 10 , 2 ) ) FROM t",
+	"SELECT SUM ( a ) FILTER ( WHERE b > 1 ) OVER ( PARTITION BY c ORDER BY d ROWS BETWEEN 1 PRECEDING AND UNBOUNDED FOLLOWING ) FROM t",
+	"SELECT a FROM t GROUP BY ROLLUP ( a , b ) , CUBE ( c ) , GROUPING SETS ( ( a ) , ( ) )",
+	"SELECT a FROM t ORDER BY a DESC NULLS LAST LIMIT 1 OFFSET 2 FETCH FIRST 3 ROWS ONLY FOR UPDATE OF t NOWAIT",
+	"SELECT a -> 'k' , b #> '{x}' , c [ 1 ] , ARRAY [ 1 , 2 ] , INTERVAL '1 day' FROM t",
+	"SELECT a FROM t LEFT OUTER JOIN u USING ( a , b ) NATURAL JOIN v CROSS JOIN LATERAL ( SELECT 1 ) x",
+	"SELECT a FROM t WHERE a IN ( SELECT b FROM u ) AND EXISTS ( SELECT 1 ) AND b BETWEEN 1 AND 2 AND c LIKE 'x' ESCAPE '!' AND d IS NOT NULL",
+	"SELECT a FROM t WHERE a = ANY ( SELECT b FROM u ) OR a > ALL ( SELECT c FROM v )",
+	"SELECT SUBSTRING ( a FROM 1 FOR 2 ) , EXTRACT ( YEAR FROM b ) , POSITION ( 'x' IN c ) FROM t",
+	"WITH RECURSIVE c ( a , b ) AS ( SELECT 1 , 2 UNION ALL SELECT a , b FROM c ) SELECT a FROM c",
+	"SELECT a FROM t UNION SELECT b FROM u EXCEPT SELECT c FROM v INTERSECT SELECT d FROM w",
+	"INSERT INTO t ( a , b ) VALUES ( 1 , 'x' ) , ( 2 , DEFAULT ) ON CONFLICT ( a ) DO UPDATE SET b = 1 WHERE a > 0 RETURNING a , b",
+	"INSERT INTO t ( a ) VALUES ( 1 ) ON DUPLICATE KEY UPDATE a = 2",
+	"REPLACE INTO t ( a ) VALUES ( 1 )",
+	"UPDATE t SET a = 1 , b = ( SELECT 1 ) WHERE c = 2 RETURNING a",
+	"DELETE FROM t WHERE a = 1 RETURNING a",
+	"MERGE INTO t x USING u y ON x . a = y . a WHEN MATCHED AND y . b > 1 THEN UPDATE SET a = y . a WHEN NOT MATCHED THEN INSERT ( a ) VALUES ( y . a ) WHEN NOT MATCHED BY SOURCE THEN DELETE",
+	"CREATE TABLE IF NOT EXISTS t ( a INT PRIMARY KEY NOT NULL DEFAULT 1 , b VARCHAR ( 10 ) REFERENCES u ( b ) ON DELETE CASCADE ON UPDATE SET NULL , CONSTRAINT c UNIQUE ( a , b ) , CHECK ( a > 0 ) , FOREIGN KEY ( a ) REFERENCES v ( a ) ) PARTITION BY RANGE ( a )",
+	"CREATE UNIQUE INDEX IF NOT EXISTS i ON t USING btree ( a DESC , b ) WHERE a > 0",
+	"CREATE OR REPLACE VIEW v ( a , b ) AS SELECT a , b FROM t WITH CHECK OPTION",
+	"CREATE MATERIALIZED VIEW IF NOT EXISTS m AS SELECT a FROM t WITH NO DATA",
+	"REFRESH MATERIALIZED VIEW CONCURRENTLY m WITH DATA",
+	"ALTER TABLE t ADD COLUMN a INT NOT NULL , DROP COLUMN b CASCADE , ALTER COLUMN c SET DEFAULT 1 , RENAME TO u",
+	"ALTER ROLE r WITH SUPERUSER PASSWORD 'x' VALID UNTIL 'y' CONNECTION LIMIT 5",
+	"ALTER POLICY p ON t TO r USING ( a > 0 ) WITH CHECK ( b > 0 )",
+	"DROP TABLE IF EXISTS t , u CASCADE",
+	"TRUNCATE TABLE t , u RESTART IDENTITY CASCADE",
+	"SHOW TABLES FROM d",
+	"DESCRIBE t",
+	"SELECT TOP 5 a FROM t",
+	"SELECT DISTINCT ON ( a ) a , b FROM t WINDOW w AS ( PARTITION BY a )",
+	"SELECT LISTAGG ( a , ',' ) WITHIN GROUP ( ORDER BY a ) FROM t",
+	"SELECT a :: INT , - b , NOT c , ( d , e ) , f || g FROM t WHERE ( a , b ) IN ( ( 1 , 2 ) )",
+}
+
+var vxCutToks = func() [][]token.Token {
+	var out [][]token.Token
+	for _, s := range vxCutCorpus {
+		out = append(out, VxFixed(s))
+	}
+	return out
+}()
+
+func vxSoupCut(tab *VxTable, maxK int) {
+	s := vx.Choice(len(vxCutToks))
+	full := vxCutToks[s]
+	c := vx.Choice(len(full) + 1)
+	vx.Assume(c <= len(full))
+	vxSoupRun(append([]token.Token{}, full[:c]...), tab, maxK, vxDialectOpts)
+}
+
+func VxSoup_Cut0() { vxSoupCut(VxHostileTable, 0) }
+func VxSoup_Cut1() { vxSoupCut(VxHostileTable, 1) }
+func VxSoup_Cut2() { vxSoupCut(VxHostileTable, 2) }
